@@ -20,7 +20,7 @@ def impl_tail(call, alt, reps=1, cls=None):
     for w, res, path in enumerate_tree(lambda g: call(g, alt, reps), cls=cls):
         if res[0] != "ok":
             raise RuntimeError("call failed inside enumeration: " + str(res[1:]))
-        pv = Fr(float(res[1])).limit_denominator(1000)
+        pv = F(res[1]).limit_denominator(1000)       # F raises NonFinite (reported as a violation) on NaN / inf
         tot += w * pv; wsum += w; leaves += 1
         if pv == 1:
             allhit += w
